@@ -153,9 +153,8 @@ Print Assumptions C09_segwit_detects_two.
 (* ------------------------------------------------------------------ addresses and WIF *)
 
 (* P2WPKH (t=2, 20 bytes), P2WSH (t=3, 32 bytes), P2TR (t=4, 32 bytes) on the four networks:
-   script -> address -> script with address_to_script_pubkey, and with TxOut.to_address on
-   mainnet/testnet/signet; on regtest TxOut.to_address raises (it only recognises "bc1"/"tb1":
-   known finding K-C09-to_address-regtest).  Since decode_bech32 of the address returns
+   script -> address -> script, both with address_to_script_pubkey and with TxOut.to_address
+   (regtest included since fix 2063db4).  Since decode_bech32 of the address returns
    (version, program), different scripts of these templates have different addresses. *)
 Theorem C09_segwit_address_roundtrip :
   forall (hash256 : bytes -> bytes) t h net,
@@ -163,8 +162,7 @@ Theorem C09_segwit_address_roundtrip :
   exists a, segwit_address (seg_script t h) net = Ok a /\
             decode_bech32 a = Ok (net_back net, seg_version t, h) /\
             address_to_script_pubkey hash256 a = Ok (seg_script t h) /\
-            (net <> 3 -> to_address_spk hash256 a = Ok (seg_script t h)) /\
-            (net = 3 -> to_address_spk hash256 a = Err).
+            to_address_spk hash256 a = Ok (seg_script t h).
 Proof. exact segwit_address_roundtrip. Qed.
 Print Assumptions C09_segwit_address_roundtrip.
 
